@@ -60,7 +60,7 @@ class SRPConfig:
             SRPConfig instance with values from dictionary
         """
         # Get language-specific config if available
-        if language and language in config:
+        if language and isinstance(config.get(language), dict):
             lang_config = config[language]
             max_methods = lang_config.get(
                 "max_methods", config.get("max_methods", DEFAULT_MAX_METHODS_PER_CLASS)
